@@ -64,6 +64,26 @@ func genSeq(rt *rapid.T) Script {
 		}
 		s.Ops = append(s.Ops, op)
 	}
+	// A shape generated on purpose: one stream grows to many small items, then a single append that needs
+	// (almost) the whole budget drains it in one purge - the purge that runs inside that very append - and
+	// the stream is read from just before the new item.
+	if rapid.IntRange(0, 4).Draw(rt, "drain_macro") == 0 {
+		sess, stream := rapid.IntRange(0, 2).Draw(rt, "drain_sess"), rapid.IntRange(0, 2).Draw(rt, "drain_stream")
+		k := rapid.IntRange(9, 24).Draw(rt, "drain_k")
+		var macro []Op
+		macro = append(macro, Op{Op: "setmax", N: k + 2})
+		for i := 0; i < k; i++ {
+			macro = append(macro, Op{Op: "append", Sess: sess, Stream: stream, Size: 1})
+		}
+		macro = append(macro, Op{Op: "append", Sess: sess, Stream: stream, Size: rapid.IntRange(k, k+3).Draw(rt, "drain_big")})
+		macro = append(macro, Op{Op: "append", Sess: sess, Stream: stream, Size: rapid.IntRange(1, 3).Draw(rt, "drain_next")})
+		// (the stream may have held items before: read from every index around the new items)
+		for idx := k - 2; idx <= k+12; idx++ {
+			macro = append(macro, Op{Op: "after", Sess: sess, Stream: stream, Index: idx})
+		}
+		pos := rapid.IntRange(0, len(s.Ops)).Draw(rt, "drain_pos")
+		s.Ops = append(s.Ops[:pos:pos], append(macro, s.Ops[pos:]...)...)
+	}
 	return s
 }
 
